@@ -181,4 +181,29 @@ theorem popcount_spec (u : Z) (hu : u.WF) :
 example : mpz_popcount ⟨false, [B - 1, 0, 5]⟩ = 66 ∧ mpz_popcount ⟨true, [1]⟩ = 2 ^ 64 - 1 ∧
     mpz_popcount ⟨false, []⟩ = 0 := by decide
 
+/-! ## mpz_scan1 / mpz_scan0 -/
+
+/-- mpz_scan1: the first index ≥ start whose two's-complement bit is 1; the largest mp_bitcnt_t when there is
+    none (non-negative operand, start beyond its highest one bit).  Any start, also far beyond the operand. -/
+theorem scan1_spec (u : Z) (hu : u.WF) (start : Nat) :
+    ((∃ j, start ≤ j ∧ Int.testBit u.toInt j = true) →
+      start ≤ mpz_scan1 u start ∧ Int.testBit u.toInt (mpz_scan1 u start) = true ∧
+      ∀ j, start ≤ j → j < mpz_scan1 u start → Int.testBit u.toInt j = false) ∧
+    ((∀ j, start ≤ j → Int.testBit u.toInt j = false) → mpz_scan1 u start = BITCNT_MAX) :=
+  first_or_max (b := true) (mpz_scan1_cases u hu start)
+-- -(2^64 * 6): first one at bit 65; beyond the operand the answer is the start itself; none for a positive number
+example : mpz_scan1 ⟨true, [0, 6]⟩ 3 = 65 ∧ mpz_scan1 ⟨true, [0, 6]⟩ 66 = 67 ∧ mpz_scan1 ⟨true, [0, 6]⟩ 1000 = 1000 ∧
+    mpz_scan1 ⟨false, [0, 6]⟩ 67 = 2 ^ 64 - 1 := by decide
+
+/-- mpz_scan0: the first index ≥ start whose two's-complement bit is 0; the largest mp_bitcnt_t when there is
+    none (negative operand, start beyond its highest zero bit). -/
+theorem scan0_spec (u : Z) (hu : u.WF) (start : Nat) :
+    ((∃ j, start ≤ j ∧ Int.testBit u.toInt j = false) →
+      start ≤ mpz_scan0 u start ∧ Int.testBit u.toInt (mpz_scan0 u start) = false ∧
+      ∀ j, start ≤ j → j < mpz_scan0 u start → Int.testBit u.toInt j = true) ∧
+    ((∀ j, start ≤ j → Int.testBit u.toInt j = true) → mpz_scan0 u start = BITCNT_MAX) :=
+  first_or_max (b := false) (mpz_scan0_cases u hu start)
+example : mpz_scan0 ⟨false, [B - 1, 7]⟩ 3 = 67 ∧ mpz_scan0 ⟨true, [0, 6]⟩ 65 = 66 ∧ mpz_scan0 ⟨true, [0, 6]⟩ 67 = 2 ^ 64 - 1 ∧
+    mpz_scan0 ⟨true, [0, 6]⟩ 5 = 5 ∧ mpz_scan0 ⟨false, [B - 1, 7]⟩ 500 = 500 := by decide
+
 end Mpir.Bits
